@@ -40,16 +40,14 @@ fn main() {
             eprintln!("HARNESS-ERROR: unknown property {}", args[1]);
             std::process::exit(2);
         };
-        let tier = match std::env::var("VERIF_TIER").ok().as_deref() {
-            Some("thorough") => Tier::Thorough,
-            Some("quick") => Tier::Quick,
-            _ => {
-                if args[2] == "thorough" {
-                    Tier::Thorough
-                } else {
-                    Tier::Quick
-                }
-            }
+        // the command line decides the tier; VERIF_TIER only when the argument is neither
+        let tier = match args[2].as_str() {
+            "thorough" => Tier::Thorough,
+            "quick" => Tier::Quick,
+            _ => match std::env::var("VERIF_TIER").ok().as_deref() {
+                Some("thorough") => Tier::Thorough,
+                _ => Tier::Quick,
+            },
         };
         let seed = std::env::var("VERIF_SEED").ok().and_then(|s| s.trim().parse::<u64>().ok()).unwrap_or(DEFAULT_SEED);
         let workers = std::env::var("VERIF_WORKERS").ok().and_then(|s| s.parse::<u64>().ok()).unwrap_or(16).max(1);
